@@ -718,40 +718,7 @@ def raises(ctx, model, cg, reach):
                       f"{norm(e)[:60]} raised on the parse path is not CklSyntaxError(msg, pos)")
 
 
-def _raised_ctors(model, f, e, depth=0):
-    """Constructor calls a raise expression denotes: a direct call of a class, a statically named helper all of whose
-    returns are such calls, or a local bound to one.  None when it cannot be told."""
-    from .common import resolve_static_call
-    if isinstance(e, ast.Call):
-        callee = resolve_static_call(model, f, e)
-        if callee is None:
-            return [e]
-        if depth > 2:
-            return None
-        out = []
-        for r in ast.walk(callee.node):
-            if isinstance(r, ast.Return):
-                if r.value is None:
-                    return None
-                sub = _raised_ctors(model, callee, r.value, depth + 1)
-                if sub is None:
-                    return None
-                out.extend(sub)
-        return out or None
-    if isinstance(e, ast.Name):
-        vals = [a.value for a in ast.walk(f.node) if isinstance(a, ast.Assign) and len(a.targets) == 1
-                and isinstance(a.targets[0], ast.Name) and a.targets[0].id == e.id]
-        handlers = [h for h in ast.walk(f.node) if isinstance(h, ast.ExceptHandler) and h.name == e.id]
-        if handlers and not vals:
-            return []          # re-raise of the caught exception object
-        out = []
-        for v in vals:
-            sub = _raised_ctors(model, f, v, depth + 1)
-            if sub is None:
-                return None
-            out.extend(sub)
-        return out or None
-    return None
+from .common import raised_ctors as _raised_ctors  # noqa: E402
 
 
 def _parent_if(fn_node, target):
